@@ -76,9 +76,15 @@ func normalizeDocument(schema *Schema, doc *ast.Document, operationName string) 
 	}
 
 	ctx := &normCtx{
-		schema:    schema,
-		synthArgs: map[string]interface{}{},
+		schema:     schema,
+		synthArgs:  map[string]interface{}{},
 		newVarDefs: nil,
+		taken:      map[string]bool{},
+	}
+	for _, vd := range op.VariableDefinitions {
+		if vd != nil && vd.Variable != nil && vd.Variable.Name != nil {
+			ctx.taken[vd.Variable.Name.Value] = true
+		}
 	}
 
 	newOp := cloneOperation(op)
@@ -356,14 +362,19 @@ func (w *fingerprintWriter) writeValue(v ast.Value) {
 type normCtx struct {
 	schema     *Schema
 	counter    int
+	taken      map[string]bool // variable names the operation already defines
 	synthArgs  map[string]interface{}
 	newVarDefs []*ast.VariableDefinition
 }
 
 func (c *normCtx) nextName() string {
-	n := fmt.Sprintf("__pcv%d", c.counter)
-	c.counter++
-	return n
+	for {
+		n := fmt.Sprintf("__pcv%d", c.counter)
+		c.counter++
+		if !c.taken[n] {
+			return n
+		}
+	}
 }
 
 // normalizeSelectionSet walks selections under the given parent type.
